@@ -611,8 +611,10 @@ func openStore(dir string, options StoreOptions) (*Store, error) {
 
 		err = checkHeader(file)
 		if err != nil {
+			// For example, a file whose creation was interrupted before
+			// its header page was written: try the next older file.
 			file.Close()
-			return nil, err
+			continue
 		}
 
 		// Will recursively restore ChildFooters of childCollections
